@@ -391,6 +391,7 @@ func runScenario(ctx *Ctx, sc *Scenario, obs Observer) {
 	var opsInCycle int
 	var mid *MidIntrusion
 	var midApplied bool
+	intrusions := 0
 	if w.VFan != nil {
 		v := w.VFan
 		d.Hook = func(ev *util.VerifEvent) {
@@ -492,9 +493,23 @@ func runScenario(ctx *Ctx, sc *Scenario, obs Observer) {
 		if w.cmdDir != "" {
 			cmdWritesBefore = countLines(filepath.Join(w.cmdDir, "writes"))
 		}
-		panicked, msg := Guard(func() { rec.Err = w.Ctrl.UpdateFanSpeed() })
+		if st.Intrude != nil || st.Mid != nil {
+			intrusions++
+		}
+		panicked, msg, stuck := GuardStuck(func() { rec.Err = w.Ctrl.UpdateFanSpeed() })
 		if panicked {
 			rec.Panic = msg
+		}
+		if stuck != "" {
+			// the cycle never returns: whatever this cycle had to do for the fan stays undone, and so does every later one
+			what := fmt.Sprintf("cycle %d of %s never returned; a fan2go goroutine has been waiting for a lock for minutes:\n%s", i, describe(sc), stuck)
+			if ctx.Name == "C05" && intrusions > 0 {
+				ctx.Violation("control-cycle-deadlocks-after-interference:"+sc.Fan.Label(), fmt.Sprintf("after %d third-party changes the fan is left as the third party set it (device pwm %d): %s", intrusions, w.devicePwm(), what), sc)
+			} else {
+				ctx.Inconclusive("a control cycle deadlocked: " + what)
+			}
+			ctx.Abort = true
+			panic(abortBatch{})
 		}
 		d.Rules = nil
 		mid = nil
@@ -719,6 +734,23 @@ func homeKind(r *rand.Rand, kind string) (string, bool) {
 // slightly below their predecessor (never 0, never reaching the top), which changes neither the first PWM with rotation
 // nor the first PWM with the highest RPM.
 func noisyMeasurement(r *rand.Rand, data map[int]float64, start, top int) {
+	if r.Intn(4) == 0 {
+		// tachometer dropouts: single 0 readings above the PWM at which the fan starts (also above the PWM of the
+		// highest RPM, and at 255); lowest non-zero PWM and lowest PWM of the highest RPM stay what they are
+		var above []int
+		for k := range data {
+			if k > start && k != top {
+				above = append(above, k)
+			}
+		}
+		sortInts(above)
+		for n := 0; n < 2 && len(above) > 0; n++ {
+			data[above[r.Intn(len(above))]] = 0
+		}
+		if r.Intn(2) == 0 && top < 255 && start < 255 {
+			data[255] = 0
+		}
+	}
 	if r.Intn(3) != 0 {
 		return
 	}
@@ -791,8 +823,17 @@ func genFan(r *rand.Rand, kinds []string) (FanSpec, int, int) {
 			}
 		} else if part <= 2 {
 			f.CfgMin, f.CfgMax = iptr(mn), iptr(mx)
-			if r.Intn(2) == 0 {
+			switch r.Intn(4) {
+			case 0:
 				f.CfgStart = iptr(mn)
+			case 1:
+				// any start value, also one below the minimum or above the maximum (fan2go warns about a
+				// "suspicious" configuration and keeps every limit as configured)
+				f.CfgStart = iptr(r.Intn(256))
+			case 2:
+				if mn > 0 {
+					f.CfgStart = iptr(r.Intn(mn))
+				}
 			}
 			f.ExpMin, f.ExpMax = iptr(mn), iptr(mx)
 			if !f.NeverStop {
@@ -833,6 +874,11 @@ func genFan(r *rand.Rand, kinds []string) (FanSpec, int, int) {
 	default:
 		// file and cmd fans have fixed limits 0..255
 		mn, mx = 0, 255
+		if !f.NeverStop && r.Intn(3) == 0 {
+			// a configured minimum on a fan that may stop: the minimum in force is 0 for every backend
+			f.CfgMin = iptr(1 + r.Intn(200))
+			f.ExpMin = iptr(0)
+		}
 		if kind == "cmd" {
 			f.HasPwm = r.Intn(3) > 0 // a third of the cmd fans are write-only (no getPwm command)
 			f.CmdTwice = r.Intn(3) == 0
